@@ -43,3 +43,45 @@ theorem C22_counterexample :
   decide +kernel
 
 end WalrusVerif.Plane
+
+namespace WalrusVerif.Plane
+open WalrusVerif
+
+theorem qinv_setup (n thresh : Nat) (topics : List (Name × Nat)) : QInv (setup n thresh topics) := by
+  unfold setup
+  have : ∀ (l : List (Name × Nat)) (w : World), QInv w → QInv (l.foldl (fun w t => createTopic w t.1 t.2) w) := by
+    intro l
+    induction l with
+    | nil => intro w h; exact h
+    | cons a r ih => intro w h; exact ih _ (qinv_createTopic w a.1 a.2 h)
+  exact this _ _ (qinv_initWorld n thresh)
+
+/-- **C22, the part that holds on every schedule: exactly-once and order per segment queue.**  In every execution -
+any cluster, any tasks, any interleaving of steps, applies and lease syncs - and for every node `e` and wal key `k`:
+the engine queue of (`e`, `k`) holds exactly the payloads written to it, in write order; the payloads GETs were handed
+from it are exactly its consumed prefix, in that order.  So no stored entry is ever returned twice, none is invented,
+and within a segment the delivery order is the write order.  What the code does *not* guarantee is that the readers'
+cursors reach every entry (`C22_counterexample`). -/
+theorem C22_exactly_once_per_queue (n thresh : Nat) (topics : List (Name × Nat)) (acts : List Act) (e : Nat) (k : Key) :
+    let w := runActs (setup n thresh topics) acts
+    (qOf w e k).entries = wTo w e k ∧
+    dFrom w e k = (wTo w e k).take (qOf w e k).consumed ∧
+    (qOf w e k).consumed ≤ (wTo w e k).length := by
+  have h := qinv_runActs _ acts (qinv_setup n thresh topics) e k
+  simp only
+  exact ⟨h.1, by rw [← h.1]; exact h.2.1, by rw [← h.1]; exact h.2.2⟩
+
+/-- what was delivered from a queue is a prefix of what was written to it -/
+theorem C22_delivered_prefix_of_written (n thresh : Nat) (topics : List (Name × Nat)) (acts : List Act) (e : Nat) (k : Key) :
+    dFrom (runActs (setup n thresh topics) acts) e k <+: wTo (runActs (setup n thresh topics) acts) e k := by
+  have h := C22_exactly_once_per_queue n thresh topics acts e k
+  simp only at h
+  rw [h.2.1]
+  exact List.take_prefix _ _
+
+/-- the invariant is not vacuous: on the counterexample schedule, queue (node 1, segment 1 of `a`) was written
+[2, 1] and delivered [2] -/
+example : wTo (runActs (setup 2 1 [(ta, 1)]) lostAckSchedule) 1 (ta, 1) = [2, 1] ∧
+    dFrom (runActs (setup 2 1 [(ta, 1)]) lostAckSchedule) 1 (ta, 1) = [2] := by decide +kernel
+
+end WalrusVerif.Plane
